@@ -680,7 +680,8 @@ func (e *SpecEnv) evalCall(c *ast.CallExpr) SVal {
 			lo, hi := e.toIX(e.eval(args[1])), e.toIX(e.eval(args[2]))
 			// quantifier discipline: quantify over the absolute cell index of the first slice indexed by k,
 			// so that the trigger is a select on a bare bound variable
-			if base := e.indexBase(args[3], k); base != "" && base != g.M.IxLit(0) {
+			base, bx := e.indexBaseX(args[3], k)
+			if base != "" && base != g.M.IxLit(0) {
 				sub = e.bind(k, SVal{S: g.M.ixSub(q, base), T: typInt, Sort: g.M.IX()})
 				sub.bound = append(append([]string{}, e.bound...), q)
 				sub.pats = &pats
@@ -689,6 +690,18 @@ func (e *SpecEnv) evalCall(c *ast.CallExpr) SVal {
 				guard = sAnd(g.M.ixLe(lo, q), g.M.ixLt(q, hi))
 			}
 			body = sub.eval(args[3]).S
+			if bx != nil && !g.M.BV {
+				// name the element of the chosen sequence in every instance (touch_* is true of everything): when a goal
+				// is split into its conjuncts, each part still carries the term the hypotheses about that sequence trigger on
+				func() {
+					defer func() { recover() }()
+					cell := sub.eval(&ast.IndexExpr{X: bx, Index: ast.NewIdent(k)})
+					switch cell.Sort {
+					case "Int", "Bool", "Ptr", "Slice", "Iface":
+						guard = sAnd(guard, app("touch_"+cell.Sort, cell.S))
+					}
+				}()
+			}
 		} else {
 			guard = "true"
 			body = sub.eval(args[1]).S
@@ -732,6 +745,13 @@ func (e *SpecEnv) evalCall(c *ast.CallExpr) SVal {
 			return SVal{S: app("if.val", v.S), T: t, Sort: "Ptr"}
 		}
 		return e.load(app("if.val", v.S), t)
+	case "rndof":
+		// rndof(lvalue): the name of the random byte that crypto/rand.Read wrote at that location
+		v := e.eval(args[0])
+		if v.Addr == "" {
+			specFail("rndof: argument is not a location")
+		}
+		return SVal{S: app("rnd", pObj(v.Addr), pOff(v.Addr)), T: types.Typ[types.Uint8], Sort: "Int"}
 	case "box":
 		// box(p, T): the interface value holding the pointer p with dynamic type T
 		v := e.eval(args[0])
@@ -1111,13 +1131,19 @@ func (e *SpecEnv) EvalRegion(x ast.Expr) (r Region, err error) {
 // indexBase finds, in body, the first expression s[k] indexing a one-cell-element slice or array by the
 // bare variable k and returns the cell offset of s[0] (or "" if there is none).
 func (e *SpecEnv) indexBase(body ast.Expr, k string) string {
+	b, _ := e.indexBaseX(body, k)
+	return b
+}
+
+// indexBaseX also returns the indexed expression (s in s[k]) that was chosen.
+func (e *SpecEnv) indexBaseX(body ast.Expr, k string) (string, ast.Expr) {
 	g := e.g
-	found := ""
+	type cand struct {
+		src, base string
+		x         ast.Expr
+	}
+	var cands []cand
 	ast.Inspect(body, func(n ast.Node) bool {
-		if found != "" {
-			return false
-		}
-		// do not look inside nested quantifiers binding the same name, old() is fine
 		ix, ok := n.(*ast.IndexExpr)
 		if !ok {
 			return true
@@ -1133,6 +1159,7 @@ func (e *SpecEnv) indexBase(body ast.Expr, k string) string {
 			if t == nil {
 				return
 			}
+			found := ""
 			if et, ok := deref(t); ok {
 				if at, ok := et.Underlying().(*types.Array); ok && !isOpaque(et) {
 					if g.L.Size(at.Elem()) == 1 {
@@ -1141,24 +1168,51 @@ func (e *SpecEnv) indexBase(body ast.Expr, k string) string {
 				} else if g.L.Size(et) == 1 {
 					found = pOff(base.S) // C-style pointer to the first of several one-cell elements
 				}
-				return
+			} else {
+				switch u := t.Underlying().(type) {
+				case *types.Slice:
+					if g.L.Size(u.Elem()) == 1 {
+						found = pOff(app("sl.ptr", base.S))
+					}
+				case *types.Array:
+					if g.L.Size(u.Elem()) == 1 && base.Addr != "" {
+						found = pOff(base.Addr)
+					}
+				}
 			}
-			switch u := t.Underlying().(type) {
-			case *types.Slice:
-				if g.L.Size(u.Elem()) == 1 {
-					found = pOff(app("sl.ptr", base.S))
-				}
-			case *types.Array:
-				if g.L.Size(u.Elem()) == 1 && base.Addr != "" {
-					found = pOff(base.Addr)
-				}
+			if found != "" {
+				cands = append(cands, cand{exprString(ix.X), found, ix.X})
 			}
 		}()
 		return true
 	})
-	return found
+	if len(cands) == 0 {
+		return "", nil
+	}
+	// When several sequences are indexed by the bound variable, the same one must be chosen in every clause that relates
+	// them (hypotheses and goals then share their trigger): prefer a parameter of the function, then alphabetical order.
+	isParam := func(src string) bool {
+		if g.fn != nil {
+			for _, p := range g.fn.Params {
+				if p.Name() == src {
+					return true
+				}
+			}
+		}
+		return false
+	}
+	best := cands[0]
+	for _, c := range cands[1:] {
+		bp, cp := isParam(best.src), isParam(c.src)
+		if (cp && !bp) || (cp == bp && c.src < best.src) {
+			best = c
+		}
+	}
+	if len(cands) == 1 {
+		return cands[0].base, cands[0].x
+	}
+	return best.base, best.x
 }
-
 
 func isByteType(t types.Type) bool {
 	b, ok := t.Underlying().(*types.Basic)
